@@ -32,6 +32,11 @@ fn auto_seed(r: &RawSeed, fmt: &str, nested: &[(&str, usize)], flat_header: usiz
     }
 }
 
+fn tier2(mut s: Seed) -> Seed {
+    s.tier2 = true;
+    s
+}
+
 macro_rules! counted {
     ($rec:expr, $ep:expr, $input:expr, |$c:ident| $body:expr) => {
         counted!(call, $rec, $ep, $input, |$c| $body)
@@ -52,7 +57,11 @@ impl Format for M2 {
         "m2"
     }
     fn seeds(&self) -> Vec<Seed> {
-        crate::seeds_m2::seeds().iter().filter(|r| r.fmt == "m2").map(|r| auto_seed(r, "m2", &[], 0x150, 0x150, 0x150)).collect()
+        let mut v: Vec<Seed> = crate::seeds_m2::seeds().iter().filter(|r| r.fmt == "m2").map(|r| auto_seed(r, "m2", &[], 0x150, 0x150, 0x150)).collect();
+        if crate::thorough() {
+            v.extend(crate::seeds_m2::seeds_thorough_extra().iter().filter(|r| r.fmt == "m2").map(|r| tier2(auto_seed(r, "m2", &[], 0x150, 0x150, 0x150))));
+        }
+        v
     }
     fn run(&self, _seed: &Seed, input: &[u8], rec: &mut Recorder, _scratch: &Path) {
         use wow_m2::{parse_m2, M2Model};
@@ -65,6 +74,19 @@ impl Format for M2 {
             let _ = rec.leaf("M2Model::parse_all_embedded_skins", || model.parse_all_embedded_skins(input));
             let _ = rec.leaf("M2Model::parse_embedded_skin[0]", || model.parse_embedded_skin(input, 0));
             let _ = rec.leaf("m2::extract_embedded_skin_bytes[0]", || wow_m2::embedded_skin::extract_embedded_skin_bytes(input, 0));
+            if crate::thorough() {
+                // the lazy readers that resolve the track offsets of the parsed model against the file bytes
+                use wow_m2::M2ModelAnimationExt;
+                let _ = rec.leaf("M2Model::resolve_bone_animations", || model.resolve_bone_animations(input));
+                let _ = rec.leaf("AnimationManagerBuilder::from_model", || wow_m2::AnimationManagerBuilder::from_model(model, input));
+                for k in 1..4usize {
+                    let _ = rec.leaf("M2Model::parse_embedded_skin[1..3]", || model.parse_embedded_skin(input, k));
+                    let _ = rec.leaf("m2::extract_embedded_skin_bytes[1..3]", || wow_m2::embedded_skin::extract_embedded_skin_bytes(input, k));
+                }
+            }
+        }
+        if crate::thorough() {
+            let _ = counted!(leaf, rec, "M2Model::parse_chunked", input, |c| M2Model::parse_chunked(&mut c));
         }
     }
 }
@@ -75,7 +97,11 @@ impl Format for Skin {
         "skin"
     }
     fn seeds(&self) -> Vec<Seed> {
-        crate::seeds_m2::seeds().iter().filter(|r| r.fmt == "skin").map(|r| auto_seed(r, "skin", &[], 64, 64, 64)).collect()
+        let mut v: Vec<Seed> = crate::seeds_m2::seeds().iter().filter(|r| r.fmt == "skin").map(|r| auto_seed(r, "skin", &[], 64, 64, 64)).collect();
+        if crate::thorough() {
+            v.extend(crate::seeds_m2::seeds_thorough_extra().iter().filter(|r| r.fmt == "skin").map(|r| tier2(auto_seed(r, "skin", &[], 64, 64, 64))));
+        }
+        v
     }
     fn run(&self, _seed: &Seed, input: &[u8], rec: &mut Recorder, _scratch: &Path) {
         use wow_m2::skin::{parse_embedded_skin, parse_skin, OldSkin, Skin as NewSkin, SkinFile};
@@ -84,6 +110,13 @@ impl Format for Skin {
         let _ = counted!(leaf, rec, "Skin::parse", input, |c| NewSkin::parse(&mut c));
         let _ = counted!(leaf, rec, "OldSkin::parse", input, |c| OldSkin::parse(&mut c));
         let _ = counted!(leaf, rec, "m2::parse_embedded_skin[version 256]", input, |c| parse_embedded_skin(&mut c, 256));
+        if crate::thorough() {
+            use wow_m2::skin::{OldSkinHeader, SkinHeader, SkinHeaderT};
+            let _ = counted!(leaf, rec, "m2::parse_embedded_skin[version 260]", input, |c| parse_embedded_skin(&mut c, 260));
+            let _ = counted!(leaf, rec, "SkinHeader::parse", input, |c| <SkinHeader as SkinHeaderT>::parse(&mut c));
+            let _ = counted!(leaf, rec, "OldSkinHeader::parse", input, |c| <OldSkinHeader as SkinHeaderT>::parse(&mut c));
+            let _ = counted!(leaf, rec, "OldSkinHeader::parse_embedded", input, |c| OldSkinHeader::parse_embedded(&mut c));
+        }
     }
 }
 
@@ -93,7 +126,11 @@ impl Format for Anim {
         "anim"
     }
     fn seeds(&self) -> Vec<Seed> {
-        crate::seeds_m2::seeds().iter().filter(|r| r.fmt == "anim").map(|r| auto_seed(r, "anim", &[], 64, 48, 96)).collect()
+        let mut v: Vec<Seed> = crate::seeds_m2::seeds().iter().filter(|r| r.fmt == "anim").map(|r| auto_seed(r, "anim", &[], 64, 48, 96)).collect();
+        if crate::thorough() {
+            v.extend(crate::seeds_m2::seeds_thorough_extra().iter().filter(|r| r.fmt == "anim").map(|r| tier2(auto_seed(r, "anim", &[], 64, 48, 96))));
+        }
+        v
     }
     fn run(&self, _seed: &Seed, input: &[u8], rec: &mut Recorder, _scratch: &Path) {
         use wow_m2::{AnimFile, AnimFormat};
@@ -101,6 +138,12 @@ impl Format for Anim {
         let _ = counted!(leaf, rec, "AnimFile::parse_validated", input, |c| AnimFile::parse_validated(&mut c));
         let _ = counted!(leaf, rec, "AnimFile::parse_with_format[Legacy]", input, |c| AnimFile::parse_with_format(&mut c, AnimFormat::Legacy));
         let _ = counted!(leaf, rec, "AnimFile::parse_with_format[Modern]", input, |c| AnimFile::parse_with_format(&mut c, AnimFormat::Modern));
+        if crate::thorough() {
+            use wow_m2::anim::{AnimFormatDetector, AnimHeader, AnimParser};
+            let _ = counted!(leaf, rec, "AnimFormatDetector::detect_format", input, |c| AnimFormatDetector::detect_format(&mut c));
+            let _ = counted!(leaf, rec, "AnimHeader::parse", input, |c| AnimHeader::parse(&mut c));
+            let _ = counted!(leaf, rec, "AnimParser::parse", input, |c| AnimParser::parse(&mut c));
+        }
         if let Some(a) = parsed {
             rec.leaf_plain("AnimFile::memory_usage", || {
                 let _ = a.memory_usage();
@@ -141,7 +184,11 @@ impl Format for WmoRoot {
         "wmo_root"
     }
     fn seeds(&self) -> Vec<Seed> {
-        crate::seeds_wmo::seeds().iter().filter(|r| r.fmt == "wmo_root").map(|r| auto_seed(r, "wmo_root", &[], 64, 64, 128)).collect()
+        let mut v: Vec<Seed> = crate::seeds_wmo::seeds().iter().filter(|r| r.fmt == "wmo_root").map(|r| auto_seed(r, "wmo_root", &[], 64, 64, 128)).collect();
+        if crate::thorough() {
+            v.extend(crate::seeds_wmo::seeds_thorough_extra().iter().filter(|r| r.fmt == "wmo_root").map(|r| tier2(auto_seed(r, "wmo_root", &[], 64, 64, 128))));
+        }
+        v
     }
     fn run(&self, _seed: &Seed, input: &[u8], rec: &mut Recorder, _scratch: &Path) {
         wmo_entries(input, rec, false);
@@ -154,7 +201,11 @@ impl Format for WmoGroup {
         "wmo_group"
     }
     fn seeds(&self) -> Vec<Seed> {
-        crate::seeds_wmo::seeds().iter().filter(|r| r.fmt == "wmo_group").map(|r| auto_seed(r, "wmo_group", &[("PGOM", 68)], 64, 48, 96)).collect()
+        let mut v: Vec<Seed> = crate::seeds_wmo::seeds().iter().filter(|r| r.fmt == "wmo_group").map(|r| auto_seed(r, "wmo_group", &[("PGOM", 68)], 64, 48, 96)).collect();
+        if crate::thorough() {
+            v.extend(crate::seeds_wmo::seeds_thorough_extra().iter().filter(|r| r.fmt == "wmo_group").map(|r| tier2(auto_seed(r, "wmo_group", &[("PGOM", 68)], 64, 48, 96))));
+        }
+        v
     }
     fn run(&self, _seed: &Seed, input: &[u8], rec: &mut Recorder, _scratch: &Path) {
         wmo_entries(input, rec, true);
@@ -173,8 +224,33 @@ impl Format for Adt {
     }
     fn run(&self, _seed: &Seed, input: &[u8], rec: &mut Recorder, _scratch: &Path) {
         use wow_adt::{discover_chunks, parse_adt, parse_adt_with_metadata};
-        let _ = counted!(leaf, rec, "adt::parse_adt", input, |c| parse_adt(&mut c));
+        // (a plain call in thorough: the lazy readers below use its result)
+        let parsed = if crate::thorough() { counted!(rec, "adt::parse_adt", input, |c| parse_adt(&mut c)) } else { counted!(leaf, rec, "adt::parse_adt", input, |c| parse_adt(&mut c)) };
         let _ = counted!(leaf, rec, "adt::parse_adt_with_metadata", input, |c| parse_adt_with_metadata(&mut c));
         let _ = counted!(leaf, rec, "adt::discover_chunks", input, |c| discover_chunks(&mut c));
+        if crate::thorough() {
+            // lazy decoding of the raw alpha-map bytes of the parsed terrain chunks (big / small / RLE)
+            if let Some(wow_adt::ParsedAdt::Root(root)) = &parsed {
+                rec.leaf_plain("CombinedAlphaMap::new", || {
+                    let mut n = 0usize;
+                    for ch in root.mcnk_chunks.iter().take(4) {
+                        for (big, fix) in [(false, false), (true, false), (false, true)] {
+                            n += wow_adt::CombinedAlphaMap::new(ch, big, fix).as_slice().len();
+                        }
+                    }
+                    n
+                });
+            }
+            // the path-based loader (root + split-file discovery next to it), 1-deviation classes only
+            if !crate::LIGHT.load(std::sync::atomic::Ordering::Relaxed) {
+                let path = _scratch.join("Map_31_32.adt");
+                if std::fs::write(&path, input).is_ok() {
+                    if let Some(set) = rec.call("AdtSet::load_from_path", || wow_adt::AdtSet::load_from_path(&path)) {
+                        let _ = rec.leaf("AdtSet::merge", || set.merge());
+                    }
+                    let _ = std::fs::remove_file(&path);
+                }
+            }
+        }
     }
 }
